@@ -3,12 +3,12 @@ C08 driver: parses the case lines that the harness executes against the real dri
 (`model` mode) or the specification oracle on an implementation trace (`judge` mode).
 
 Case lines (shared with harness/c08/c08.c):
-  script o<k> create|init|mod|act|id|hbeat <op>;<op>;...   the n-th such line is the script of the n-th invocation of that hook of
+  script o<k> create|init|mod|act|id|hbeat|ofilt <op>;<op>;...   the n-th such line is the script of the n-th invocation of that hook of
                                               object k; all script lines come before the first command
   t <op>                                      master->do_op(op)   (top level)
   snap | probe | gc | tick
 op syntax (comma separated):  ld,<file> | cl,<file> | mv,o<a>,o<d> | mvs,o<a>,<file> | fis,<file> | pr,o<env>,o<t> | hbe,o<a> | hbd,o<a> | de,o<a> | ec,o<a> | dc,o<a> | ln,o<a>,<name> |
-  fo,<file>[#<n>] | fl,<name> | aa,o<a>,<verb> | cmd,o<a>,<verb> | kp,o<a> | rd | err | mvarg | nop          <file> ::= b<k> | nx | bad
+  fo,<file>[#<n>] | fl,<name> | aa,o<a>,<verb> | cmd,o<a>,<verb> | kp,o<a> | rd | err | mvarg | nop | obf | ct,<op>          <file> ::= b<k> | nx | bad
 -/
 import NV.Common.Proto
 import NV.C08.Model
@@ -34,7 +34,7 @@ def parseName (s : String) : Option Name :=
   | [b, k] => do some { base := (← parseBase b), num := some (← k.toNat?) }
   | _ => none
 
-def parseOp (s : String) : Option Op :=
+def parseOp1 (s : String) : Option Op :=
   match s.splitOn "," with
   | ["ld", b] => (parseBase b).map .ld
   | ["cl", b] => (parseBase b).map .cl
@@ -57,11 +57,17 @@ def parseOp (s : String) : Option Op :=
   | ["err"] => some .err
   | ["mvarg"] => some .mvarg
   | ["nop"] => some .nop
+  | ["obf"] => some .obf
   | _ => none
+
+/-- `ct,<op>` = catch (<op>) (one level) -/
+def parseOp (s : String) : Option Op :=
+  if s.startsWith "ct," then (parseOp1 (s.drop 3).toString).map .ct else parseOp1 s
 
 def parseHook (s : String) : Option Hook :=
   if s == "create" then some .create else if s == "init" then some .init else if s == "mod" then some .mod
-  else if s == "act" then some .act else if s == "id" then some .id else if s == "hbeat" then some .hbeat else none
+  else if s == "act" then some .act else if s == "id" then some .id else if s == "hbeat" then some .hbeat
+  else if s == "ofilt" then some .ofilt else none
 
 structure Parsed where
   scripts : List ((Nat × Hook) × List Op) := []      -- in file order
